@@ -462,3 +462,55 @@ def tlc_check(chk, name, module, cfg, workers=16, timeout=900, expect="ok", **kw
                          "development time, never an alarm):\n%s" % (name, r["out"][-2500:]))
         raise Broken("TLC did not complete on %s (rc=%s):\n%s" % (name, r["rc"], r["out"][-2500:]))
     return r
+
+
+def history_check(chk, driver, scns, module, quick, seed, nseeds_quick=600, nseeds_thorough=6000,
+                  optsets=(("nes=0",), ("nes=1",), ("nes=2",)), free_runs=200, what="history rejected by the specification",
+                  stuck_is_violation=True, batch_events=5000, variant="gcc", sigfn=None, env=None):
+    """Run `scns` of a driver over option sets and seeds (serialized mode; plus
+    free mode in the thorough tier) and validate the histories."""
+    spec_dir = os.path.join(VERIF, "spec", "hist")
+    exe = build_driver(driver, variant=variant)
+    n = nseeds_quick if quick else nseeds_thorough
+    jobs = []
+    per = 50 if quick else 250
+    for scn in scns:
+        for opts in optsets:
+            s0 = seed * 1000000 + 1
+            for off in range(0, n, per):
+                jobs.append(dict(exe=exe, scn=scn, seed0=s0 + off, count=min(per, n - off), opts=opts, env=env))
+    if not quick and free_runs:
+        for scn in scns:
+            for opts in optsets:
+                for k in range(4):
+                    jobs.append(dict(exe=exe, scn=scn, seed0=seed * 1000000 + 500001 + k * free_runs, count=free_runs,
+                                     opts=opts, mode="free", env=dict(env or {}, ABTV_PERTURB="1"), timeout=600))
+    runs = sweep(jobs)
+    chk.evaluations += len(runs)
+    done, abnormal = classify_runs(chk, runs, stuck_is_violation=stuck_is_violation)
+    for r in done:
+        sig = sigfn(r) if sigfn else json.dumps([[e.get(k) for k in sorted(e) if k not in ("q", "now", "steps")] for e in r[1:]])
+        chk.distinct.add(hashlib.sha1(sig.encode()).hexdigest())
+    validate_runs(chk, done, os.path.join(spec_dir, module + "Trace.tla"), os.path.join(spec_dir, module + "Trace.cfg"),
+                  batch_events=batch_events, what=what)
+    if done:
+        chk.sample({"history": [{k: v for k, v in e.items() if k != "q"} for e in done[len(done) // 2][:30]]})
+    rv = chk.extra.setdefault("runs_by_verdict", {})
+    rv["done"] = rv.get("done", 0) + len(done)
+    for v, _ in abnormal:
+        rv[v] = rv.get(v, 0) + 1
+    return done, abnormal
+
+
+def generic_replay(pid, module, path):
+    chk = Check(pid, "quick", 0)
+    runs = split_runs(read_ndjson(path))
+    done, _ = classify_runs(chk, runs)
+    spec_dir = os.path.join(VERIF, "spec", "hist")
+    validate_runs(chk, done, os.path.join(spec_dir, module + "Trace.tla"), os.path.join(spec_dir, module + "Trace.cfg"))
+    for k, w, rp in chk.violations:
+        print("VIOLATION property=%s replay=%s" % (pid, path))
+        print("  " + w)
+    if not chk.violations:
+        print("replay: no violation in %s" % path)
+    return 1 if chk.violations else 0
